@@ -1319,7 +1319,10 @@ func (r *Run) diffIterRetention(want, got []expItem, rev bool, tnow uint64, trun
 			return fmt.Sprintf("item %q@%d is not a written version in iteration order (or appears twice)", g.Key, g.Ver)
 		}
 		w := want[j]
-		if w.Del != g.Del || (!w.Del && (!bytes.Equal(w.Val, g.Val) || w.UM != g.UM || w.Exp != g.Exp || w.Disc != g.Disc)) {
+		// (the value of an entry whose expiry has passed is not owed: value-log GC
+		// discards it and may delete its file while an all-versions scan still lists the entry)
+		valueOwed := !w.Del && !expired(w.Exp, tnow)
+		if w.Del != g.Del || (valueOwed && !bytes.Equal(w.Val, g.Val)) || (!w.Del && (w.UM != g.UM || w.Exp != g.Exp || w.Disc != g.Disc)) {
 			return fmt.Sprintf("item %q@%d differs from what was written: want %v got %v", g.Key, g.Ver, w, g)
 		}
 		present[j] = true
@@ -1778,6 +1781,11 @@ func (r *Run) prefill() {
 		if cfg.PrefillAllKeys && i%7 == 6 {
 			w = WriteRec{Key: string(key), Del: true}
 			err = txn.Delete(key)
+		} else if cfg.PrefillTTL > 0 && i%3 == 1 {
+			// expiring pre-fill: these entries are old enough to be moved by GC or
+			// compacted before the simulated clock crosses their expiry
+			w.Exp = uint64(time.Now().Add(time.Duration(cfg.PrefillTTL) * time.Second).Unix())
+			err = txn.SetEntry(badger.NewEntry(key, w.Val).WithTTL(time.Duration(cfg.PrefillTTL) * time.Second))
 		} else {
 			err = txn.Set(key, w.Val)
 		}
